@@ -46,6 +46,13 @@ carquet_schema_t* carquet_schema_create(carquet_error_t* error) {
 
     /* Initialize root element */
     schema->elements[0].name = carquet_arena_strdup(&schema->arena, "schema");
+    if (!schema->elements[0].name) {
+        free(schema->elements);
+        carquet_arena_destroy(&schema->arena);
+        free(schema);
+        CARQUET_SET_ERROR(error, CARQUET_ERROR_OUT_OF_MEMORY, "Failed to allocate schema root name");
+        return NULL;
+    }
     schema->elements[0].num_children = 0;
 
     /* Allocate leaf tracking arrays with malloc */
@@ -152,6 +159,9 @@ carquet_status_t carquet_schema_add_column(
     memset(elem, 0, sizeof(*elem));
 
     elem->name = carquet_arena_strdup(&schema->arena, name);
+    if (!elem->name) {
+        return CARQUET_ERROR_OUT_OF_MEMORY;
+    }
     elem->has_type = true;
     elem->type = physical_type;
     elem->has_repetition = true;
@@ -198,6 +208,9 @@ int32_t carquet_schema_add_group(
     memset(elem, 0, sizeof(*elem));
 
     elem->name = carquet_arena_strdup(&schema->arena, name);
+    if (!elem->name) {
+        return -1;
+    }
     elem->has_type = false;  /* Groups don't have a type */
     elem->has_repetition = true;
     elem->repetition_type = repetition;
